@@ -40,7 +40,6 @@ impl NodeChild {
         let mut child = Command::new(node)
             .arg("--experimental-vm-modules")
             .arg("--no-warnings")
-            .arg("--stack-size=2000")
             .arg(script)
             .stdin(Stdio::piped())
             .stdout(Stdio::piped())
